@@ -158,8 +158,9 @@ def pruneSlot : Slot → Slot
   | s => s
 
 def detach (strict : Bool) (o : Obj) : Obj :=
-  if strict then { o with vals := none, dbvals := none, hasCache := false }
-  else { o with dbvals := none, hasCache := false, vals := o.vals.map (fun vs => vs.map (fun p => (p.1, pruneSlot p.2))) }
+  -- `cache.seeds = None` at the end of close: no object is a seed of a closed cache
+  if strict then { o with vals := none, dbvals := none, hasCache := false, seed := false }
+  else { o with dbvals := none, hasCache := false, seed := false, vals := o.vals.map (fun vs => vs.map (fun p => (p.1, pruneSlot p.2))) }
 
 /-- `SessionCache.close`: `is_alive = False`; `if connection is None: return`; otherwise detach every object of the cache -/
 def close (strict hadConnection : Bool) (w : World) : World :=
